@@ -116,6 +116,8 @@ _SUBF = {}
 def sub_real(expr, xv, yv):
     """are all sub-expressions of the source real and finite at the point (the real domain of the source)"""
     k = sympy.srepr(expr)
+    if any(abs(float(f)) > 1e300 for f in expr.atoms(sympy.Float)):
+        return False
     if k not in _SUBF:
         subs = [e for e in sympy.preorder_traversal(expr) if not e.is_Atom]
         try:
@@ -135,8 +137,8 @@ def sub_real(expr, xv, yv):
                 v = mpmath.mpmathify(v)
                 if isinstance(v, mpmath.mpc) and abs(v.imag) > 0:
                     return False
-                if not mpmath.isfinite(v):
-                    return False
+                if not mpmath.isfinite(v) or abs(v) > 1e300:
+                    return False  # beyond the range of double precision constants / intermediates
     except Exception:
         return False
     return True
@@ -445,6 +447,15 @@ def ca_trees(tier, part, nparts):
 
 def sp_num(expr, syms_map, av, bv):
     """numeric value of the converted SymPy object at (a, b); Booleans as 0/1; None if not real / undefined"""
+    def finish(v):
+        if v in (sympy.true, sympy.false) or isinstance(v, bool):
+            return float(bool(v))
+        if isinstance(v, (int, float)):
+            return float(v)
+        c = complex(v)
+        if abs(c.imag) > 1e-12 or not math.isfinite(c.real):
+            return None
+        return c.real
     try:
         subs = {s: (av if str(k) == "a" else bv) for k, s in syms_map.items()}
         if isinstance(expr, (bool, int, float)):
@@ -457,12 +468,25 @@ def sp_num(expr, syms_map, av, bv):
             return float(bool(v))
         if not v.is_number:
             return "unevaluated"
-        c = complex(v)
-        if abs(c.imag) > 1e-12 or not math.isfinite(c.real):
-            return None
-        return c.real
+        return finish(v)
     except Exception as ex:
-        return "error:%s" % type(ex).__name__
+        first = type(ex).__name__
+    # SymPy's own substitution machinery failed (e.g. RecursionError inside relational simplification): evaluate the same object numerically
+    try:
+        syms = list(syms_map.values())
+        f = sympy.lambdify(syms, expr, "mpmath")
+        with mpmath.workdps(25):
+            v = f(*[mpmath.mpf(av if str(k) == "a" else bv) for k in syms_map.keys()])
+        if isinstance(v, (bool, sympy.logic.boolalg.BooleanAtom)):
+            return float(bool(v))
+        v = mpmath.mpmathify(v)
+        if isinstance(v, mpmath.mpc):
+            if abs(v.imag) > 1e-12:
+                return None
+            v = v.real
+        return float(v) if mpmath.isfinite(v) else None
+    except Exception as ex:
+        return "error:%s/%s" % (first, type(ex).__name__)
 
 
 def explore_ca(case):
